@@ -76,11 +76,25 @@ theorem toInt_floor (x : ℝ) : Num.toInt (Num.floor x) = ⌊x⌋ := by
   show (if (0 : ℝ) ≤ (⌊x⌋ : ℝ) then ⌊(⌊x⌋ : ℝ)⌋ else ⌈(⌊x⌋ : ℝ)⌉) = ⌊x⌋
   split_ifs <;> simp
 
+/-- the clamp test of the fixed `uniformInt` (taken in `double` before the cast) over ℝ -/
+theorem uniformInt_val (lo hi : Int) (u : ℝ) :
+    uniformInt lo hi u =
+      if hi < ⌊uniformReal (Num.ofInt lo) (Num.ofInt hi + Num.ofNat 1) u⌋ then hi
+      else ⌊uniformReal (Num.ofInt lo) (Num.ofInt hi + Num.ofNat 1) u⌋ := by
+  unfold uniformInt
+  simp only [toInt_floor]
+  have hiff : (Num.ofInt hi < Num.floor (uniformReal (Num.ofInt lo) (Num.ofInt hi + Num.ofNat 1) u)) ↔
+      hi < ⌊uniformReal (Num.ofInt lo) (Num.ofInt hi + Num.ofNat 1) u⌋ :=
+    (Int.cast_lt (R := ℝ) (m := hi) (n := ⌊uniformReal (Num.ofInt lo) (Num.ofInt hi + Num.ofNat 1) u⌋))
+  by_cases h : hi < ⌊uniformReal (Num.ofInt lo) (Num.ofInt hi + Num.ofNat 1) u⌋
+  · rw [if_pos (hiff.mpr h), if_pos h]
+  · rw [if_neg (fun hh => h (hiff.mp hh)), if_neg h]
+
 /-- `uniformInt(lo, hi)` lands in `[lo, hi]` -/
 theorem uniformInt_sat {lo hi : Int} (h : lo ≤ hi) {u : ℝ} (h0 : 0 ≤ u) (h1 : u < 1) :
     discSat lo hi (uniformInt lo hi u) = true := by
-  unfold discSat uniformInt
-  simp only [toInt_floor]
+  unfold discSat
+  rw [uniformInt_val]
   have hc : (lo : ℝ) ≤ (hi : ℝ) := by exact_mod_cast h
   have hc1 : (lo : ℝ) ≤ (hi : ℝ) + 1 := by linarith
   have hm := (uniformReal_mem (a := (lo : ℝ)) (b := (hi : ℝ) + 1) hc1 h0 h1).1
